@@ -5,7 +5,7 @@
    ORACLE: a float is given by the shape of its repr ([-]d.d, [-]d[.d]e+-dd, inf, nan).
    The tables [export_names], [export_defns] are regenerated from qasm.py on every run (Gen/Qasm.v).
    The model describes the tree with the proposed fixes C10-* applied; the formatting of the unchanged code is kept
-   at the end for the refutation lemmas. *)
+   at the end for the refutation lemmas.  The measure statement is printed as the code prints it (no ';'). *)
 From QV Require Export Spec.Qasm.
 From QV Require Import Gen.Qasm Model.QasmImport.
 Local Open Scope nat_scope.
@@ -86,6 +86,9 @@ Fixpoint defs_pass (map : list (string * string)) (ops : list eop) : option (lis
           end
       end
   end.
+(* Measurement._to_qasm: the statement is emitted WITHOUT the terminating ';' (pinned by tests/test_qasm.py::test_qasm_str;
+   open known finding measure-without-semicolon) *)
+Definition meas_text (t c : nat) : string := "measure q[" ++ str_nat t ++ "] -> c[" ++ str_nat c ++ "]".
 (* second loop: one statement per operation *)
 Definition op_text (map : list (string * string)) (o : eop) : option string :=
   match o with
@@ -95,7 +98,7 @@ Definition op_text (map : list (string * string)) (o : eop) : option string :=
       | Some q => if cc then None             (* "Exporting controlled gates is not implemented yet." *)
                   else qasm_str q controls targets a
       end
-  | EMeas t (Some c) => Some ("measure q[" ++ str_nat t ++ "] -> c[" ++ str_nat c ++ "];")
+  | EMeas t (Some c) => Some (meas_text t c)
   | EMeas _ None => None
   end.
 (* the lines of QasmOutput._qasm_output *)
@@ -145,4 +148,5 @@ Definition qasm_str_unfixed (q_name : string) (controls targets : list nat) (a :
          | Some t => Some (q_name ++ "(" ++ t ++ ") " ++ join "," (map qreg_text (List.app controls targets)) ++ ";")
          | None => None end
   end.
-Definition meas_text_unfixed (t c : nat) : string := "measure q[" ++ str_nat t ++ "] -> c[" ++ str_nat c ++ "]".
+(* a circuit without measurements (guard of the validity statement) *)
+Definition no_meas (c : ecirc) : bool := forallb (fun o => match o with EMeas _ _ => false | _ => true end) (e_ops c).
